@@ -987,8 +987,9 @@ pub fn corpus() -> Vec<Case> {
     let mut c = v[0].clone();
     c.opts = with_plan(Enc::Fqz);
     c.label = "corpus 13".into();
-    // (fqzcomp itself panics on a zero-length record: C08's F17)
-    c.recs.retain(|r| !r.qual.is_empty());
+    // (kept to records with scores so that the quality block is non-trivial in every run; the full shape list,
+    // with its ReadBase features and its record without bases, is corpus 21)
+    c.recs.retain(|r| !r.qual.is_empty() && ![&b"m2"[..], b"m12", b"m13"].contains(&&r.name[..]));
     v.push(c);
     let mut c = v[12].clone();
     c.opts = with_plan(Enc::Tok);
@@ -1017,6 +1018,20 @@ pub fn corpus() -> Vec<Case> {
     let mut c = v[19].clone();
     c.opts = layout(100, 1);
     c.label = "corpus 20".into();
+    v.push(c);
+    // 21: fqzcomp selected for a quality block that is NOT one array per record: ReadBase features (m2, m13)
+    // append their scores to the series
+    let mut c = v[0].clone();
+    c.opts = with_plan(Enc::Fqz);
+    c.label = "corpus 21".into();
+    c.recs.retain(|r| !r.seq.is_empty());
+    v.push(c);
+    // 22: fqzcomp selected and a record in the middle of the slice has no bases (read length 0)
+    let mut c = v[0].clone();
+    c.opts = with_plan(Enc::Fqz);
+    c.label = "corpus 22".into();
+    c.recs.retain(|r| [&b"m0"[..], b"u1", b"m1"].contains(&&r.name[..]));
+    c.recs.swap(1, 2); // m0, u1, m1: the empty record is followed by one with scores
     v.push(c);
     v
 }
